@@ -583,6 +583,13 @@ def preprocess_observation(
         return preprocessed_obs
 
     elif isinstance(observation_space, spaces.Tuple):
+        if isinstance(observation, TensorDict):
+            # Tuple observations are stored in replay buffers under "tuple_obs_{i}" keys
+            observation = tuple(
+                observation[f"tuple_obs_{i}"]
+                for i in range(len(observation_space.spaces))
+            )
+
         assert isinstance(
             observation, tuple
         ), f"Expected tuple, got {type(observation)}"
